@@ -638,6 +638,82 @@ do_robust (long *v, int nv, int with_idn)
 }
 
 /* ------------------------------------------------------------------ */
+/* kind 15: dump the compiled table (exported symbol tld_list) and look every label up: trace for Trace_Table */
+static void
+do_table (void)
+{
+    char path[600];
+    FILE *f;
+    int i = 0;
+    snprintf (path, sizeof path, "%s/table.ndjson", outdir);
+    if (!(f = fopen (path, "w"))) die ("open table");
+    for (const tld_t *t = tld_list; ; t++) {
+        i++;
+        if (t->domain == NULL) {
+            fprintf (f, "{\"e\":\"row\",\"src\":\"compiled\",\"i\":%d,\"term\":1,\"d\":[],\"len\":%zu,\"type\":%d}\n", i, t->length, t->type);
+            break;
+        }
+        fprintf (f, "{\"e\":\"row\",\"src\":\"compiled\",\"i\":%d,\"term\":0,\"d\":", i);
+        put_ubytes (f, (const unsigned char *) t->domain, (int) strlen (t->domain));
+        fprintf (f, ",\"len\":%zu,\"type\":%d}\n", t->length, t->type);
+        if (i > 100000) die ("table has no terminator");
+    }
+    fprintf (f, "{\"e\":\"count\",\"src\":\"compiled\",\"n\":%d}\n", i - 1);
+    /* every label, and variations that are (mostly) not labels, looked up through is_tld */
+    for (const tld_t *t = tld_list; t->domain; t++) {
+        size_t n = strlen (t->domain);
+        char buf[300];
+        for (int var = 0; var < 5; var++) {
+            size_t m = n;
+            memcpy (buf, t->domain, n + 1);
+            if (var == 1) { buf[n] = 'q'; buf[n + 1] = 0; m = n + 1; }            /* one character longer */
+            else if (var == 2 && n > 1) { buf[n - 1] = 0; m = n - 1; }              /* proper prefix */
+            else if (var == 3) { for (size_t k = 0; k < n; k++) if (buf[k] >= 'a' && buf[k] <= 'z') buf[k] -= 32; }
+            else if (var == 4) { buf[0] = buf[0] == 'q' ? 'z' : 'q'; }
+            {
+                const char *p = place_bytes ((unsigned char *) buf, (int) m, var & 1);
+                int rc = is_tld (p, p + m);
+                unplace ();
+                fprintf (f, "{\"e\":\"lookup\",\"in\":");
+                put_ubytes (f, (unsigned char *) buf, (int) m);
+                fprintf (f, ",\"rc\":%d}\n", rc);
+                cnt.calls++; cnt.checked++; cnt.pinned++;
+            }
+        }
+    }
+    fclose (f);
+}
+
+/* ------------------------------------------------------------------ */
+/* kind 16: library oracle for the CLI check: [16, id, n, bytes..] -> oracle.ndjson {"id","ret","msg"} (default settings) */
+static FILE *f_oracle;
+static void
+do_oracle (long *v, int nv)
+{
+    eav_t ev;
+    int n = (int) v[2], ret;
+    const char *p, *msg;
+    char path[600];
+    if (nv != 3 + n) die ("bad oracle vector");
+    if (!f_oracle) {
+        snprintf (path, sizeof path, "%s/oracle.ndjson", outdir);
+        if (!(f_oracle = fopen (path, "w"))) die ("open oracle");
+    }
+    eav_init (&ev);
+    if (eav_setup (&ev) != 0) die ("setup");
+    p = place (v + 3, n, 0, -1);
+    ret = eav_is_email (&ev, p, n);
+    unplace ();
+    msg = eav_errstr (&ev);
+    fprintf (f_oracle, "{\"id\":%ld,\"ret\":%d,\"msg\":[", v[1], ret);
+    for (int i = 0; msg && msg[i]; i++) fprintf (f_oracle, i ? ",%d" : "%d", (unsigned char) msg[i]);
+    fprintf (f_oracle, "]}\n");
+    fflush (f_oracle);
+    eav_free (&ev);
+    cnt.calls++;
+}
+
+/* ------------------------------------------------------------------ */
 int
 main (int argc, char **argv)
 {
@@ -667,6 +743,8 @@ main (int argc, char **argv)
         case 8: do_pool (v, nv); break;
         case 9: do_policy (v, nv); break;
         case 13: do_robust (v, nv, 1); break;
+        case 15: do_table (); break;
+        case 16: do_oracle (v, nv); break;
         case 14: do_robust (v, nv, 0); break;
         case 10: do_defaults (v, nv); break;
         case 11: do_policy_addr (v, nv); break;
